@@ -29,13 +29,9 @@ func init() {
 // Loops whose order-insensitivity rests on a reading of the callee, not on a local idiom (I5/I6 and schema bounds).
 // Key: "<function> | range <map>". One reason each.
 var mapRangeJustified = map[string]string{
-	"yang.(*Modules).FindModuleByNamespace | Modules": "I6 unique search with contradiction check: returns the one module with this namespace and errors if two different modules match",
-	"yang.build | sRequired":                          "schema-bounded: sRequired has at most the keys module/submodule (SCHEMA.REQ), the statement's own key is skipped, and any hit returns the same kind of error",
-	"yang.(*Modules).resolveIdentities | children":    "appends to Identity.Values, which is rebuilt and sorted with a total key right after (ORDER.SORTKEY); base errors are appended to a list sorted at the boundary",
-	"yang.(*Modules).resolveIdentities | closure":     "element-local: rebuilds i.Identity.Values from the element's own direct children through a de-duplicating, then totally sorted, closure",
-	"yang.(*Entry).checkErrors | Dir":                 "I4: calls f on every recorded error; the one caller that collects (GetErrors) de-duplicates and returns the list through errorSort",
-	"yangentry.Parse | Modules":                       "I2: entries[e.Name] = ToEntry(ms.Modules[m.Name]); the value is a function of the key (bare name → latest revision); ToEntry is a cache hit after Process",
-	"main.(Types).AddEntry | Dir":                     "set insert into the type set, recursively: a set does not depend on insertion order",
+	"yang.(*Modules).resolveIdentities | children": "appends to Identity.Values, which is rebuilt and sorted with a total key right after (ORDER.SORTKEY); base errors are appended to a list sorted at the boundary",
+	"yang.(*Entry).checkErrors | Dir":              "I4: calls f on every recorded error; the one caller that collects (GetErrors) de-duplicates and returns the list through errorSort",
+	"yangentry.Parse | Modules":                    "I2: entries[e.Name] = ToEntry(ms.Modules[m.Name]); the value is a function of the key (bare name → latest revision); ToEntry is a cache hit after Process",
 }
 
 type mapRange struct {
@@ -269,11 +265,11 @@ func (c *Ctx) mapRangeJustification(mr mapRange, con string) (string, bool) {
 	case fnName == "yang.(*Modules).resolveIdentities" && suffix == "dict":
 		// two loops over the dictionary: the first appends children, the second rebuilds the closure
 		if c.loopCalls(mr, "yang.addChildren") {
-			return mapRangeJustified[fnName+" | closure"], c.closureLoopSorted(mr)
+			return jstr("mapRangeJustified", mapRangeJustified, fnName+" | closure"), c.closureLoopSorted(mr)
 		}
 		suffix = "children"
 	}
-	j, ok := mapRangeJustified[fnName+" | "+suffix]
+	j, ok := jget("mapRangeJustified", mapRangeJustified, fnName+" | "+suffix)
 	return j, ok
 }
 
@@ -681,7 +677,7 @@ func ruleOrderSources(c *Ctx) []Obligation {
 				n++
 				if !x.Blocking {
 					// non-blocking select with one case + default: deterministic given channel state (the lexer's token queue)
-					if why, okj := selectJustified[c.FnName(fn)]; okj {
+					if why, okj := jget("selectJustified", selectJustified, c.FnName(fn)); okj {
 						obs = append(obs, just(R, c.FnName(fn)+": select", c.InstrPos(x), why))
 						return
 					}
